@@ -182,7 +182,10 @@ Side conditions (explicit hypotheses, both about things outside lib/script):
     all signature versions, every total instance of the cryptography subject to `TapSigHashOk`. `hidx`/`hwfa` say that
     `idx` is the offset behind the instruction; `hgood`: for the four legacy signature opcodes the script has no
     decode error (with one, `delSig` and `FindAndDelete` differ — and the script fails as a whole, see
-    `evalScript_equiv`). -/
+    `evalScript_equiv`). No separate non-vacuity `example`: the whole hypothesis bundle (`Rel`, `Side`, `hidx`, `hwfa`,
+    `hgood`) is constructed for EVERY script, stack and flag set inside the proof of `evalScript_equiv`
+    (`evalScript_agree_all`, Proofs/C01Loop.lean), which has no such hypotheses — so it is satisfiable at every
+    reachable state. -/
 theorem step_equiv (T : TotalOracles) (c : Ctx) (hO : c.O = T.toOracles) (leaf : Bytes) (annex : Option Bytes)
     (st : St) (s : ScriptSpec.State) (op : Op) (i : ScriptSpec.Instr) (idx pos : Nat)
     (hop : i.op = op.opcode) (hdata : i.data = op.push.getD []) (hR : Rel c leaf annex st s) (hside : Side T c)
